@@ -196,6 +196,24 @@ def import_step(repo: Repo, rep):
         for n, c in imps:
             for name, fn in (("external", "used_externals"), ("HasRepr", "used_hasrepr")):
                 apps = [m for m in cfg.live for cc in node_calls(m) if isinstance(cc.func, ast.Attribute) and cc.func.attr == "append" and cc.args and isinstance(cc.args[0], ast.Constant) and cc.args[0].value == name]
+                # the same decision written as a table: [n for n, needed in (("external", used), ("HasRepr", used_hasrepr(tree))) if needed]
+                from .C03 import import_table
+
+                table_hit = None
+                for st_ in cfg.stmts(ast.Assign):
+                    tb = import_table(st_.ast.value)
+                    if tb:
+                        for nm_, cond_ in tb:
+                            if nm_ == name:
+                                table_hit = (st_, cond_)
+                if not apps and table_hit is not None:
+                    st_, cond_ = table_hit
+                    src = resolve_alias(cfg, st_, cond_) if isinstance(cond_, ast.Name) else cond_
+                    if isinstance(src, ast.Call) and norm(src.func).endswith(fn):
+                        rep.ok("R-IMPORT-STEP", f, st_.ast, f"`{name}` requested iff {fn}(tree) (table form)")
+                    else:
+                        rep.violation("R-IMPORT-STEP", f, st_.ast, f"the import of `{name}` is not requested under {fn}(tree)", construct=f"{f.qualname}:{name}:guard")
+                    continue
                 if not apps:
                     rep.violation("R-IMPORT-STEP", f, c, f"{f.qualname} never requests the import of `{name}`", construct=f"{f.qualname}:{name}")
                     continue
